@@ -172,6 +172,7 @@ func (c *c17Config) uri(k int) string {
 
 type c17Flow struct {
 	ID, Index, CookieName, CookieValue string
+	CookiePath                         string // a browser tells cookies apart by name AND path
 }
 type c17State struct {
 	flows map[int]*c17Flow
@@ -274,7 +275,7 @@ func (c *c17Config) startFlow(st *c17State, k int) (c17Reply, string) {
 	fl.ID = string(m[1])
 	for _, ck := range w.Result().Cookies() {
 		if strings.HasPrefix(ck.Name, "saml_") {
-			fl.CookieName, fl.CookieValue = ck.Name, ck.Value
+			fl.CookieName, fl.CookieValue, fl.CookiePath = ck.Name, ck.Value, ck.Path
 		}
 	}
 	if fl.CookieName != "saml_"+fl.Index {
@@ -358,7 +359,14 @@ func (c *c17Config) deliver(st *c17State, a c17Act) c17Real {
 		form.Set("RelayState", st.flows[c17FlowOf(a.Rs)].Index)
 	}
 	p, msg := safely(func() {
-		w := c.serve(c.mw, "POST", "/saml/acs", form, cookies)
+		// one delivery in four arrives through an application mux that routes the ACS under its pattern "/saml/acs/"
+		// (the browser sends a Path=/saml/acs cookie there too)
+		var h http.Handler = c.mw
+		target := "/saml/acs"
+		if hashKey(string(st.net[a.R]) + a.Rs)[0]%4 == 0 {
+			h, target = http.HandlerFunc(c.mw.ServeACS), "/saml/acs/"
+		}
+		w := c.serve(h, "POST", target, form, cookies)
 		out.Reply.Status = w.Code
 		out.Location = w.Header().Get("Location")
 		for _, ck := range w.Result().Cookies() {
@@ -380,7 +388,8 @@ func (c *c17Config) deliver(st *c17State, a c17Act) c17Real {
 				}
 			case strings.HasPrefix(ck.Name, "saml_") && ck.Value == "":
 				for k, f := range st.flows {
-					if f.CookieName == ck.Name {
+					// (a clearing Set-Cookie with another Path leaves the tracking cookie in the browser)
+					if f.CookieName == ck.Name && f.CookiePath == ck.Path {
 						out.Reply.Cleared = k
 					}
 				}
